@@ -47,6 +47,19 @@ def zoo(rng):
             np.arange(rng.choice([1000, 50000])).astype(float), 'x' * rng.choice([10, 100000]), (None, None), float('inf'), True, 10 ** 30]
 
 
+def sized_element(target):
+    """a bytes object whose pickle has exactly `target` bytes (sizes around powers of two expose chunked writers)"""
+    L = max(0, target - 20)
+    for _ in range(64):
+        n = len(pickle.dumps(b'x' * L))
+        if n == target:
+            return b'x' * L
+        L += target - n
+        if L < 0:
+            return None
+    return None
+
+
 def same_after_pickle(a, b):
     try:
         return pickle.dumps(a) == pickle.dumps(b)
@@ -157,6 +170,20 @@ def check(ctx):
                 if r is not None:
                     lines.append('strm.save %d %s | %s' % (n, 'e1' if stop == 'srcfail' else '-', ' '.join(r['demands'])))
                     metas.append((case, r))
+        # elements whose pickled size sits on / next to powers of two
+        targets = [m * 2 ** p + d for p in (8, 10, 12, 14, 16, 17, 20) for m in (1, 3) for d in (-1, 0, 1, 2)]
+        rng.shuffle(targets)
+        always = [m * 2 ** p + d for p in (16, 17, 20) for m in (1, 3) for d in (0, 1)]
+        for tg in ((always + [t for t in targets if t not in always][:10]) if ctx.quick else targets):
+            big = sized_element(tg)
+            if big is None:
+                continue
+            cid += 1
+            elems = [None, big, b'', 'tail']
+            case, r = run_case(ctx, tmp, cid, elems, rng.choice(['close', 'exhaust', 'srcfail']), 3, rng.randint(0, 9), rng.choice(['name', 'bytesio']))
+            case['pickled_size_of_element_1'] = tg
+            ctx.case(('sized', tg), True)
+            ctx.count('sized_elements')
         # cheap version of the long-stream test: start the member numbering just below 10**6 (from outside, through the
         # module's name `enumerate`; if the implementation numbers its members differently this is simply one more stream)
         import builtins
